@@ -113,6 +113,8 @@ def o_C02(ctx):
             v.append(([c.id], "%s: serialized view is window (%s), expected the same memory b[..k] = (0,%d)" % (c.entry, view, k)))
         if rem != "%d,%d" % (k, L - k):
             v.append(([c.id], "%s: remainder is window (%s), expected b[k..] = (%d,%d)" % (c.entry, rem, k, L - k)))
+        if first(t, "x_map") == "0":
+            v.append(([c.id], "%s: ParseResult::map / parsed_owned do not hand over the same result (consumed, remainder, view)" % c.entry))
         lm = first(t, "x_lenm")
         if lm is not None and int(lm) != k:
             v.append(([c.id], "%s: len() = %s but consumed = %d" % (c.entry, lm, k)))
